@@ -34,6 +34,12 @@ def run(idx, rep, tier):
     r1(idx, rep)
     r2(idx, rep)
     r4(idx, rep)
+    # a member inside a group reads the same modes and the same file as alone: the group drivers seed metadata (collect_when_not_matched)
+    # before the member's comment is collected, so the comment must win; and the name the group resolves delivers the content registered last
+    from . import c15, c11
+    c15.metadata_merge(idx, rep, "R1")
+    n, msg = c11.run_sequences(idx, 3)
+    rep.check(msg is None, "R2", "csvpath/managers/files/file_manager.py::the named file a group runs on is the content registered last", msg or f"{n} operation sequences", "csvpath/managers/files/file_manager.py")
     rep.stats["exhaustive"] = True
 
 
